@@ -80,7 +80,7 @@ def self_place(t):
 
 def norm_src(s):
     sp = self_place(s)
-    if sp is not None and sp.count(".") >= 2:
+    if sp is not None and sp.count(".") >= 1:
         return sp          # a projection below a field of self: one spelling for `x.Some.0`, `field(x, 0)`, `field(x, 0)[..]`
     if isinstance(s, tuple) and s and s[0] == "loc":
         root, path = s[1], s[2]
